@@ -18,6 +18,11 @@ CHECKS = {
    text="Every fitted instance of every predictor family is driven through all calling forms and layouts; the prediction of each row alone is the reference for every batch (exact for labels, noise floor for reals), output counts and handed-back records are checked, MultiTarget/MultiClass/Platt wrappers are compared with members whose outputs the harness controls (ties, |f| up to 1e300). Exploration over seeds and batch compositions.",
    note="Trusts the zoo's conversion of outputs to f64 and the noise floor 1024*eps_F*p*(1+max|output|) for differently blocked matrix products. Models whose fit legitimately errors are inconclusive.",
    ref="DESIGN.md §5 C03"),
+ "C19": dict(
+   technique="runtime monitor: bincode / JSON round trips of every serde-offering value kind (fitted models, parameter sets, transformers, results, selectors, errors); oracle = PartialEq + serde image equality + bit-identical behaviour on fixed inputs + second-trip fixed point",
+   text="Every value kind that offers serde under the crates' serde feature is built for several seeds, round-tripped through bincode, JSON and pretty JSON (serde_json with float_roundtrip), and the restored value is compared with the original: equality where defined, learned state, bit patterns of predictions/transforms, validation verdicts and refits of parameter sets, the documented tokenizer guard. Exploration over value kinds and seeds.",
+   note="Trusts serde_json (float_roundtrip) and bincode as lossless carriers for finite floats; JSON is skipped for images containing null. Kernel/KernelView offer no usable serialisation (unsatisfiable derive bound) and are not monitored; Xoshiro-carrying parameter types (k-means, GMM, FTRL params) cannot be serialised with the crates' feature set and are not monitored.",
+   ref="DESIGN.md §5 C19"),
 }
 
 NOT_YET = {}
